@@ -144,16 +144,21 @@ class Recon:
         """comprehension: element term with loop variables bound to loopvars"""
         e2 = dict(env)
         gens = []
+        filters = []
         for g in n.generators:
             it = self.ex(g.iter, e2)
             for tn in ast.walk(g.target):
                 if isinstance(tn, ast.Name):
                     e2[tn.id] = ('loopvar', tn.id, it)
             gens.append(it)
+            for cond in g.ifs:
+                filters.append(self.ex(cond, e2))
         if isinstance(n, ast.DictComp):
             elt = ('tuple', (self.ex(n.key, e2), self.ex(n.value, e2)))
         else:
             elt = self.ex(n.elt, e2)
+        if filters:
+            return ('comp', type(n).__name__, elt, tuple(gens), tuple(filters))
         return ('comp', type(n).__name__, elt, tuple(gens))
 
     def _qual(self, dotted):
@@ -361,12 +366,23 @@ class Recon:
             self.events.append(Event('try', conds, (), s))
             self.block(s.body, env, conds)
             env.pop('__dead__', None) if s.handlers else None
+            merged = []
             for h in s.handlers:
                 eh = dict(env)
                 if h.name:
                     eh[h.name] = ('exc', h.name)
                 self.events.append(Event('handler', conds, (ast.unparse(h.type) if h.type else None,), h))
                 self.block(h.body, eh, conds + [(('handler', h.lineno), True)])
+                if not eh.pop('__dead__', None):
+                    merged.append((('caught', ast.unparse(h.type) if h.type else 'BaseException'), eh))
+            # a handler that completes normally continues after the try statement with what it assigned
+            for tag, eh in merged:
+                for k in set(eh) | set(env):
+                    if k.startswith('__') or k == getattr(s.handlers[0], 'name', None):
+                        continue
+                    a, b = eh.get(k, ('undef', k)), env.get(k, ('undef', k))
+                    if a != b:
+                        env[k] = ('phi', tag, a, b)
             self.block(s.orelse, env, conds)
             self.block(s.finalbody, env, conds)
         elif isinstance(s, (ast.Assert, ast.Pass, ast.Import, ast.ImportFrom, ast.Global, ast.Nonlocal)):
